@@ -109,6 +109,16 @@ Proof. exact positional_construction. Qed.
 Theorem too_many_positional_values_are_rejected : forall V (fields : list (string * V)) pos kw, length fields < length pos ->
   bind_args V (generate_init V fields) pos kw = Err EType.
 Proof. exact too_many_positional_values_are_rejected. Qed.
+(* T(name=v, ...) with distinct keywords that name fields, in any order: every field reads back as the value of its keyword, or as the
+   type's default when it has none (or None) *)
+Theorem keyword_construction : forall V (fields : list (string * V)) kw, NoDup (map fst fields) -> NoDup (map fst kw) ->
+  (forall k, In k (map fst kw) -> In k (map fst fields)) ->
+  exists args, bind_args V (generate_init V fields) [] kw = Ok args /\
+    exists attrs, run_init V (generate_init V fields) args = Ok attrs /\
+    forall i nm d, nth_error fields i = Some (nm, d) ->
+      lookup nm attrs = Some (match lookup nm kw with Some (Some v) => v | _ => d end).
+Proof. exact keyword_construction. Qed.
+Print Assumptions keyword_construction.
 Print Assumptions positional_construction.
 Print Assumptions equal_exactly_when_same_type_and_all_fields_equal.
 Print Assumptions equal_instances_hash_equally.
